@@ -53,7 +53,7 @@ structure Task where
 /-- answers of the source during one step -/
 structure Script where
   latest : List (Option (Nat × String))          -- consumed in call order
-  hash : List (Option String)                    -- consumed in call order
+  hash : List (Nat × Option String)              -- looked up by the requested block number, first match consumed
   gets : List ((Nat × Nat) × Option (List Blk))  -- looked up by (start, limit), first match consumed
   deriving Repr
 
@@ -113,10 +113,10 @@ def takeLatest (s : St) : Option (Option (Nat × String)) × St :=
   | [] => (none, s)
   | a :: rest => (some a, { s with script := { s.script with latest := rest } })
 
-def takeHash (s : St) : Option (Option String) × St :=
-  match s.script.hash with
-  | [] => (none, s)
-  | a :: rest => (some a, { s with script := { s.script with hash := rest } })
+def takeHash (s : St) (n : Nat) : Option (Option String) × St :=
+  match s.script.hash.find? (fun g => g.1 == n) with
+  | none => (none, s)
+  | some g => (some g.2, { s with script := { s.script with hash := s.script.hash.erase g } })
 
 def takeGet (s : St) (start limit : Nat) : Option (Option (List Blk)) × St :=
   match s.script.gets.find? (fun g => g.1 == (start, limit)) with
@@ -164,6 +164,7 @@ def load (t : Task) (s : St) (localHash : String) (start limit : Nat) : LoadRes 
 structure Result where
   outcome : Outcome
   db : DB
+  mid : Option DB := none      -- the state committed by the first transaction, when it committed
   scriptOk : Bool := true      -- false: the recorded script did not match the calls the model makes
   deriving Repr
 
@@ -187,7 +188,7 @@ def converge (t : Task) (db : DB) (script : Script) (fault : Option Pos) : Resul
             | some c => (some (some (c.num, c.hash)), s)
             | none =>
               if t.start > 0 then
-                match takeHash s with
+                match takeHash s (t.start - 1) with
                 | (none, s') => (none, s')
                 | (some none, s') => (some none, s')
                 | (some (some h), s') => (some (some (t.start - 1, h)), s')
@@ -196,7 +197,7 @@ def converge (t : Task) (db : DB) (script : Script) (fault : Option Pos) : Resul
                 | (none, s') => (none, s')
                 | (some none, s') => (some none, s')
                 | (some (some (n, _)), s') =>
-                  match takeHash s' with
+                  match takeHash s' ((n + U64 - 1) % U64) with
                   | (none, s'') => (none, s'')
                   | (some none, s'') => (some none, s'')
                   | (some (some h), s'') => (some (some ((n + U64 - 1) % U64, h)), s'')
@@ -253,25 +254,25 @@ def converge (t : Task) (db : DB) (script : Script) (fault : Option Pos) : Resul
                         if hit fault .commit1 then { outcome := .err, db := s.db }
                         else
                           let db1 := s.view                                  -- first transaction commits
-                          if hit fault .begin2 then { outcome := .err, db := db1 }
-                          else if hit fault .insert then { outcome := .err, db := db1 }
+                          if hit fault .begin2 then { outcome := .err, db := db1, mid := some db1 }
+                          else if hit fault .insert then { outcome := .err, db := db1, mid := some db1 }
                           else
                             let newRows := bs.flatMap fun b => b.rows.map fun (k, p) =>
                               ({ table := t.table, src := t.src, ig := t.ig, blk := b.num, key := k, pay := p } : TRow)
                             -- unique index of the destination table
                             let clash := newRows.any (fun r => db1.rows.any fun o => o.table == r.table && o.key == r.key) ||
                               !(newRows.map (·.key)).eraseDups.length == newRows.length
-                            if clash then { outcome := .err, db := db1 }
-                            else if hit fault .update then { outcome := .err, db := db1 }
+                            if clash then { outcome := .err, db := db1, mid := some db1 }
+                            else if hit fault .update then { outcome := .err, db := db1, mid := some db1 }
                             else
                               match bs.getLast? with
-                              | none => { outcome := .panic, db := db1 }
+                              | none => { outcome := .panic, db := db1, mid := some db1 }
                               | some last =>
                                 let c : Cur := { src := t.src, ig := t.ig, num := last.num, hash := last.hash }
                                 if db1.cur.any (fun o => o.src == c.src && o.ig == c.ig && o.num == c.num) then
-                                  { outcome := .err, db := db1 }            -- unique (ig, src, num)
-                                else if hit fault .commit2 then { outcome := .err, db := db1 }
-                                else { outcome := .ok last.num, db := { cur := db1.cur ++ [c], rows := db1.rows ++ newRows } }
+                                  { outcome := .err, db := db1, mid := some db1 }            -- unique (ig, src, num)
+                                else if hit fault .commit2 then { outcome := .err, db := db1, mid := some db1 }
+                                else { outcome := .ok last.num, db := { cur := db1.cur ++ [c], rows := db1.rows ++ newRows }, mid := some db1 }
     loop 1001 { db := db, view := db, script := script }
 
 end Shovel.World
